@@ -229,7 +229,15 @@ func c09Check(c *Ctx, a *c09Anim, stream string) {
 		s, _, _ := d.NextFrame()
 		early = append(early, s)
 	}
+	checkEarly := func(when string) {
+		for i, s := range early {
+			if hashBytes(s.Pix) != hashes[i] {
+				c.Violate("snapshot-mutated", fmt.Sprintf("snapshot %d (of %d taken) changed %s", i, k, when), a)
+			}
+		}
+	}
 	d.Reset()
+	checkEarly("by Reset")
 	var again []string
 	for d.HasNext() {
 		s, _, err := d.NextFrame()
@@ -237,6 +245,7 @@ func c09Check(c *Ctx, a *c09Anim, stream string) {
 			break
 		}
 		again = append(again, hex.EncodeToString(s.Pix))
+		checkEarly("by a NextFrame call after Reset")
 	}
 	if strings.Join(again, ",") != line {
 		c.Violate("reset-replay", fmt.Sprintf("after %d frames + Reset the replay differs", k), a)
